@@ -4,7 +4,7 @@ sys.path.insert(0, os.path.dirname(os.path.dirname(os.path.abspath(__file__))))
 import vlib
 
 MANIFEST = dict(
-    level=("proof", "Twenty-seven Coq theorems over an executable model of path.c's directory walk (chains of any "
+    level=("proof", "Twenty-eight Coq theorems over an executable model of path.c's directory walk (chains of any "
            "length: secure <-> every directory acceptable, first offender and complaint reported), the key/seed/log "
            "file vetting of conf.c/random.c/munged.c with the whole process identity (real/effective/saved uid and "
            "gid) as an explicit parameter and every rule stated for the EFFECTIVE uid, the order of the start-up "
@@ -581,6 +581,29 @@ def gen_daemon_cases(ctx):
                     c["dirs"][site] = [attr]
                     c[site] = {"type": "reg", "uid": EUID2, "gid": 0, "mode": m}
                     add("noremove", c)
+    # --- seed acceptance does not depend on the trusted group: an existing seed of the effective user whose GROUP
+    #     is the trusted group / another group / root's, with and without group (and other) permission bits, with
+    #     --trusted-group set to that group, to another one, or not given.  "used" / "removed" are read off the real
+    #     daemon (its "Seeded PRNG ... from <file>" line, the name gone while it runs)
+    sg_modes = (0o660, 0o640, 0o620, 0o604, 0o600, 0o400, 0o664, 0o602) + ((0o610, 0o650, 0o606, 0o700) if T else ())
+    k = 0
+    for g in (TGID, OGID, 0):
+        for m in sg_modes:
+            for tg in (None, TGID, OGID):
+                for fg in ((True, False) if T or m in (0o660, 0o640, 0o620, 0o600) else (bool(k % 2),)):
+                    k += 1
+                    e = EUID2 if k % 3 == 0 else 0
+                    c = base_case(fg=fg, euid=e, tg=tg, umask=(0o022, 0o077)[k % 2])
+                    if e != 0 and k % 2:
+                        c["ids"] = (e, e, g or EGID2, g or EGID2)      # the daemon's own group is that group
+                    c["seed"] = {"type": "reg", "uid": e, "gid": g, "mode": m}
+                    add("seedgid", c)
+    for tg in (None, TGID):             # ... and in a seed directory that is group-writable for the trusted group
+        for m in (0o660, 0o640, 0o600):
+            c = base_case(fg=True, euid=0, tg=tg, depth=2)
+            c["dirs"]["seed"] = [(0, TGID, 0o775), (0, TGID, 0o775)]
+            c["seed"] = {"type": "reg", "uid": 0, "gid": TGID, "mode": m}
+            add("seedgid", c)
     # --- random combinations (order of the checks, several faults at once)
     for _ in range(8000 if T else 150):
         e = rng.choice((0, 0, 0, EUID2))
@@ -1114,7 +1137,8 @@ def daemon_property(case, obs, tail, before):
         if sd is not None and sd["type"] != "missing":
             ok = acceptable_file(sd, euid, 0o066)
             if not ok and obs["seed_used"]:
-                return "a seed file failing the ownership/permission checks was used (%s; effective uid %d, process %s)" % (sd, euid, ids)
+                return ("a seed file failing the ownership/permission checks was used (%s, mode %04o; effective uid %d, "
+                        "process %s, --trusted-group %s)" % (sd, sd["mode"], euid, ids, "not given" if tg is None else tg))
             if not ok and sd["type"] != "dir" and not obs["seed_removed"] and seed_removable:
                 return "a seed file failing the ownership/permission checks was not removed (%s)" % sd
     elif case["lock"] is None:
@@ -1199,7 +1223,8 @@ def run(ctx):
         "socket already sitting at the pid, socket, lock, seed and log name; every directory defect on each ancestor "
         "of each of the five names crossed with name free / file there (good, bad mode) x foreground/daemon mode; a "
         "non-root daemon whose seed/pid file sits, already there with assorted owners and modes, in a secure directory "
-        "it may not write to: unlink fails, the old file is reused); "
+        "it may not write to: unlink fails, the old file is reused; existing seeds of the effective user with group = "
+        "trusted group / other / root x group and other permission bits x --trusted-group that group / another / unset); "
         "each answer judged by an independent "
         "statement of the property and diffed with the extracted model; non-trivial = every case")
     oracle = vlib.build_oracle(ctx, "path")
